@@ -25,7 +25,7 @@ use simcore::simio::{ReadStep, SimReader, SimSink, SimWriter, WriteStep};
 
 const PROPERTY: &str = "C11";
 const SC_CHAIN: u64 = 1101;
-const HANG_LIMIT: Duration = Duration::from_secs(60);
+const HANG_LIMIT: Duration = Duration::from_secs(120);
 
 /// A serde newtype struct around a bare inner value: what a foreign producer would write.
 #[derive(Serialize)]
